@@ -101,6 +101,13 @@ void *realloc(void *p, size_t n)
 	__CPROVER_assert(0, "C05.harness capacity suffices: the arrays never reallocate in this bounded scenario");
 	return p;
 }
+void *memmove(void *dst, const void *src, size_t n)
+{
+	__CPROVER_assert((const char *)dst <= (const char *)src, "C05.memmove moves towards lower addresses (array_remove_at)");
+	for(size_t i = 0; i < n; i++)
+		((unsigned char *)dst)[i] = ((const unsigned char *)src)[i];
+	return dst;
+}
 #endif
 
 #include "mm/buddy/multi.c"
@@ -185,14 +192,29 @@ void h_take_restore_modular(void)
 			S->buddies.count = n_ar + k + 1;
 		}
 	S->full_ckpt_size = expected_size(S); /* INV_MM maintained by rs_malloc / rs_free (C12.rs_*) */
+#ifndef VERIF_NATIVE
+	n_released = 0;
+#endif
 	array_count_t r = model_allocator_checkpoint_restore(S, 9);
 	VASSERT(r == 5 && array_count(S->logs) == 1, "C05.restore the checkpoint is used and kept");
 	if(g < n_ar) {
 		VASSERT(g_restored[g] == 1 && g_inited[g] == 0 && g_alloc[g] == saved, "C05.restore every arena that existed at the checkpoint gets its OWN record back");
 	} else if(g < n_ar + n_new) {
-		VASSERT(g_restored[g] == 0 && g_inited[g] == 1 && g_alloc[g] == 0, "C05.restore an arena created after the checkpoint is re-initialised: allocations of undone events are gone");
+		bool freed_g = false;
+#ifndef VERIF_NATIVE
+		for(unsigned i = 0; i < 8; i++)
+			if(i < n_released && released[i] == (void *)&arena_pool[g])
+				freed_g = true;
+#else
+		freed_g = true;
+#endif
+		VASSERT(g_restored[g] == 0 && freed_g, "C05.restore an arena created after the checkpoint is dropped: allocations of undone events are gone");
 	}
-	VASSERT(S->full_ckpt_size == expected_size(S), "C05.restore the size accounting is exact again, including arenas added after the checkpoint (else the NEXT checkpoint overflows its buffer)");
+	VASSERT(array_count(S->buddies) == n_ar, "C05.restore the arena list is again the one of the checkpoint, so re-executed allocations are served exactly as the first time");
+	for(unsigned a = 0; a < NA; a++)
+		if(a < n_ar)
+			VASSERT(array_get_at(S->buddies, a) == &arena_pool[a], "C05.restore the surviving arenas keep their order");
+	VASSERT(S->full_ckpt_size == expected_size(S), "C05.restore the size accounting is exact again (else the NEXT checkpoint overflows its buffer)");
 	VASSERT(order_bad == 0, "C05.restore only the LP's own arenas are touched");
 	VCANARY("h_take_restore_modular reachable");
 	VCOVER(n_ar == 2 && n_new == 1, "h_take_restore_modular covers two old arenas and one created after the checkpoint");
